@@ -6,6 +6,7 @@ import N2V.Lemmas.Work
 import N2V.Lemmas.WorldClean
 import N2V.Lemmas.WorldSettled
 import N2V.Lemmas.WorldReflect
+import N2V.Lemmas.WorldSettledD
 namespace N2V.C03
 open N2V N2V.Work N2V.Load
 
@@ -188,6 +189,44 @@ example : AllUpToDate exEnv (fun _ => True) := by
 /-- ... and its graph is of the kind the round-trip theorem covers. -/
 example : Plain exEnv.g := by
   refine ⟨?_, ?_, ?_⟩ <;> intro b bm hb <;> (cases b with
+    | zero => simp [buildOf, exEnv] at hb; subst hb; decide
+    | succ n => simp [buildOf, exEnv] at hb)
+
+/-- **The round trip with discovered dependencies** (depfile / `deps = msvc` steps included).  For a
+    loaded project in which no command rewrites an input and every step has an output, on a graph
+    without ordering cycles, WHATEVER the log held before (records with dependency lists, records
+    of other manifests): if an invocation succeeds without reloading the manifest, the
+    dependencies its finished steps remember at the end are source files (`GoodD`: none is produced
+    by a step - n2 itself refuses generated ones that lack a dependency path), the files the wanted
+    steps name (remembered dependencies included) exist afterwards and the manifest still loads to
+    the same graph, then the next invocation with the same arguments changes nothing, starts no
+    command and reports 0 tasks - whatever the completion orders and hash-set iteration orders in
+    either invocation.  Invariant `Work.JD` (Lemmas/WorkSettledD): the graph only gains uniquely
+    named source files; every Done step whose files exist has, as the latest record the log
+    attributes to it, one whose signature is the manifest of the tree as it is and whose dependency
+    list names the step's current discovered dependencies - carried through `Work::run` by
+    `Sched.runLoop_done`; the next start-up re-attaches exactly that (`applyLog_spec`). -/
+theorem build_after_successful_build_does_nothing_with_depfiles (w : World) (a : InvArgs) (perms : List (List Nat))
+    (fin : List (Nat × Sched.Term)) (l : Loader) (e0 : Env) (hl : loadEnv w a.manifestName = .ok (l, e0))
+    (plain : PlainD e0.g) (acyc : Sched.Acyclic (schedGraph e0.g)) (hpar : 0 < a.par) (n : Nat)
+    (hdone : (Run.build (schedGraph e0.g) (argsOf l a) (choices a.adopt perms fin) e0).2.2 = .done n)
+    (hsrc : GoodD (Run.build (schedGraph e0.g) (argsOf l a) (choices a.adopt perms fin) e0).1
+              (Run.build (schedGraph e0.g) (argsOf l a) (choices a.adopt perms fin) e0).2.1)
+    (hpresent : ∀ b bm, Run.Wanted (schedGraph e0.g) (argsOf l a) b → buildOf e0.g b = some bm → bm.cmdline.isNone = false →
+      AllPresentD (Run.build (schedGraph e0.g) (argsOf l a) (choices a.adopt perms fin) e0).2.1 bm b)
+    (w' : World)
+    (hw' : w' = { fs := (Run.build (schedGraph e0.g) (argsOf l a) (choices a.adopt perms fin) e0).2.1.fs,
+                  clock := (Run.build (schedGraph e0.g) (argsOf l a) (choices a.adopt perms fin) e0).2.1.clock,
+                  log := (Run.build (schedGraph e0.g) (argsOf l a) (choices a.adopt perms fin) e0).2.1.log })
+    (e0' : Env) (hl' : loadEnv w' a.manifestName = .ok (l, e0'))
+    (o1 o2 : List (List Nat) × List (Nat × Sched.Term)) :
+    (invoke w' a o1 o2).1 = w' ∧ commandEvents (invoke w' a o1 o2).2.2 = [] ∧
+    (∀ k, (invoke w' a o1 o2).2.1 = .done k → k = 0) :=
+  second_build_does_nothing_deps w a perms fin l e0 hl plain acyc hpar n hdone hsrc hpresent w' hw' e0' hl' o1 o2
+
+/-- The example project is of the kind this covers too. -/
+example : PlainD exEnv.g := by
+  refine ⟨?_, ?_⟩ <;> intro b bm hb <;> (cases b with
     | zero => simp [buildOf, exEnv] at hb; subst hb; decide
     | succ n => simp [buildOf, exEnv] at hb)
 
